@@ -117,12 +117,36 @@ def r3(ctx):
                     if st["k"] == "assign" and st["rv"]["k"] == "use" and "k" in st["rv"]["op"] and st["rv"]["op"]["k"].get("ty") == "u32" and fb.dominates(tr, bb) and not fb.can_reach(fl, bb):
                         return st["rv"]["op"]["k"].get("v")
         return None
+    def bit_direct(param):
+        # the flag spelled without a branch: u32::from(flag) / flag as u32 (bit 0), optionally << k
+        for s_ in subterms(w):
+            if isinstance(s_, tuple) and s_[0] == "bin" and s_[1] == "BitOr":
+                for side in (s_[2], s_[3]):
+                    side = unwrap_ovf(side)
+                    if strip(side) == ("param", param):
+                        return 1
+                    if side[0] == "bin" and side[1] == "Shl" and strip(side[2]) == ("param", param) and ev(ctx, side[3]) is not None:
+                        return 1 << ev(ctx, side[3])
+        return None
     wh, wp = bit_const("header_bit"), bit_const("partial_bit")
+    wh = bit_direct("header_bit") if wh is None else wh
+    wp = bit_direct("partial_bit") if wp is None else wp
     ors = [s for s in subterms(w) if isinstance(s, tuple) and s[0] == "bin" and s[1] == "BitOr"]
     ctx.check(P, rule, "writer: (len << 2) | header_bit | partial_bit", wshift is not None and len(ors) == 2 and wh is not None and wp is not None, "shift %s, header bit %s, partial bit %s" % (wshift, wh, wp),
               "build_len_and_info_header returns %s" % term_str(w)[:200])
-    mask = const_lookup(ctx, "oplog::build_len_and_info_header::MASK")
-    ctx.check(P, rule, "writer refuses lengths beyond 30 bits", mask == (3 << 30) and wshift == 2, "MASK = 3<<30 with shift 2", "MASK=%s shift=%s" % (mask, wshift))
+    # the guard `if len & MASK != 0 { panic }`: the mask is whatever constant the length is tested
+    # against on a branch whose non-zero side never returns
+    mask = None
+    lenterm = shl[2] if shl else None
+    for b, o, tr, fl in bool_switches(fb, lambda o: o[0] == "bin" and o[1] in ("Eq", "Ne") and ev(ctx, o[3]) == 0 and strip(o[2])[0] == "bin" and strip(o[2])[1] == "BitAnd"):
+        ba = strip(o[2])
+        nonzero = fl if o[1] == "Eq" else tr
+        if nonzero is None or any(fb.can_reach(nonzero, rb) for rb, _, _ in ret_assigns(fb)):
+            continue
+        for m_, v_ in ((ba[2], ba[3]), (ba[3], ba[2])):
+            if ev(ctx, m_) is not None and lenterm is not None and term_sig(unwrap_ovf(v_)) == term_sig(unwrap_ovf(lenterm)):
+                mask = ev(ctx, m_)
+    ctx.check(P, rule, "writer refuses lengths beyond 30 bits", mask == (3 << 30) and wshift == 2, "length & (3<<30) != 0 panics, with shift 2", "MASK=%s shift=%s" % (mask, wshift))
     # reader
     some = [t for _, _, t in ok_returns(fv) if is_agg(agg_field(t, "0"), "Some")]
     if not need(ctx, P, rule, "validate_leader: Ok(Some(outcome))", some):
@@ -290,8 +314,25 @@ def _indexed_reader(ctx, prop, rule, fd, words):
                     base = lin(ctx, strip(_find(v, lambda q: q[0] == "index")[2]))
                     pairs.add((sh, str(li.get(1, 0)) if li else None))
         first = _find(v, lambda q: q[0] == "index")
-        ctx.check(prop, rule, "reader: u32 words are little-endian", {p[0] for p in pairs} == {8, 16, 24} and {p[1] for p in pairs} == {"1", "2", "3"} and all(int(p[1]) * 8 == p[0] for p in pairs),
-                  "byte k shifted by 8k", "byte/shift pairs are %s" % sorted(pairs))
+        le_ok = {p[0] for p in pairs} == {8, 16, 24} and {p[1] for p in pairs} == {"1", "2", "3"} and all(int(p[1]) * 8 == p[0] for p in pairs)
+        le_how = "byte k shifted by 8k"
+        if not pairs:
+            # the same word spelled u32::from_le_bytes([data[i], data[i + 1], data[i + 2], data[i + 3]])
+            fl = _find(v, lambda q: q[0] == "call" and len(q) == 4 and q[2].split("::")[-1] == "from_le_bytes" and "u32" in q[2])
+            arr = strip(fl[3][0]) if fl is not None and fl[3] else None
+            if arr is not None and is_agg(arr) and arr[1] == "array" and len(arr[3]) == 4:
+                offs = []
+                for _, el in arr[3]:
+                    el = strip(el)
+                    li = lin(ctx, el[2]) if el[0] == "index" and strip(el[1]) == ("param", "data") else None
+                    offs.append(li)
+                if all(o is not None for o in offs):
+                    rel = [{k_: o.get(k_, 0) - offs[0].get(k_, 0) for k_ in set(o) | set(offs[0])} for o in offs]
+                    le_ok = all(all(v_ == 0 for k_, v_ in r_.items() if k_ != 1) and r_.get(1, 0) == n_ for n_, r_ in enumerate(rel))
+                    le_how = "u32::from_le_bytes over data[i], data[i+1], data[i+2], data[i+3] in order"
+                    pairs = {("from_le_bytes", str([str(r_.get(1, 0)) for r_ in rel]))}
+        ctx.check(prop, rule, "reader: u32 words are little-endian", le_ok,
+                  le_how, "byte/shift pairs are %s" % sorted(pairs))
     # trip count of the reader's word loop for a full page == words per page
     trip = None
     detail = "no affine word loop found"
@@ -341,6 +382,30 @@ def _indexed_reader(ctx, prop, rule, fd, words):
                     from math import ceil, floor
                     trip = int(floor(span / step)) + 1 if op == "Le" else int(ceil(span / step))
                     detail = "for a complete page: i from page start, step %s, while i %s start + %s => %s iterations" % (step, "<=" if op == "Le" else "<", span, trip)
+    if trip is None and idxs:
+        # the word loop written over a range: for i in (start..=limit).step_by(4) / (start..end).step_by(4)
+        from .c09 import _range_of
+        for x_ in subterms(idxs[0][2]):
+            r_ = _range_of(x_) if isinstance(x_, tuple) and x_ and x_[0] in ("some", "call") else None
+            if r_ is None:
+                continue
+            st_, en_, incl, stp = r_
+            def full(t_):
+                t_ = unwrap_ovf(t_)
+                if isinstance(t_, tuple) and t_[0] == "call" and t_[2].split("::")[-1] == "min":
+                    return full(t_[3][0])
+                if isinstance(t_, tuple) and t_[0] == "bin":
+                    return ("bin", t_[1], full(t_[2]), full(t_[3]))
+                return t_
+            ls, le, sv = lin(ctx, st_), lin(ctx, full(en_)), ev(ctx, stp)
+            if ls is not None and le is not None and sv:
+                diff = {k_: le.get(k_, 0) - ls.get(k_, 0) for k_ in set(le) | set(ls)}
+                if all(v_ == 0 for k_, v_ in diff.items() if k_ != 1):
+                    from math import ceil, floor
+                    span = diff.get(1, 0)
+                    trip = int(floor(span / sv)) + 1 if incl else int(ceil(span / sv))
+                    detail = "for a complete page: i over start..%s start + %s step %s => %s iterations" % ("=" if incl else "", span, sv, trip)
+                    break
     ctx.check(prop, rule, "reader: a complete page yields all %s words" % words, trip == words, detail,
               "FixedBitfield::from_data reads %s words of a complete page (%s) but a page holds %s: the last word(s) of every reloaded page stay zero" % (trip, detail, words), key="%s|%s|FixedBitfield::from_data|word loop trip count" % (prop, rule))
 
